@@ -7,6 +7,10 @@ import (
 
 	"go.opentelemetry.io/collector/pdata/plog"
 	"go.opentelemetry.io/collector/pdata/ptrace"
+	"google.golang.org/protobuf/proto"
+
+	colarspb "github.com/open-telemetry/otel-arrow/api/experimental/arrow/v1"
+	"github.com/open-telemetry/otel-arrow/pkg/otel/arrow_record"
 )
 
 // nulResetHistory is the specific history of the known finding
@@ -139,4 +143,53 @@ func TestKnownC02(t *testing.T) {
 		}
 	}
 	fmt.Printf("KNOWN-GONE key=large-value-dictionary (all 60 batches decoded)\n")
+}
+
+// TestKnownC14 probes the known finding continue-after-refusal: a consumer
+// that is used again after it refused a batch. The payloads behind the refused
+// one were never handed to their readers, so those sub-streams miss messages;
+// when a later batch re-opens the refused sub-stream (new schema id of the
+// main record) the following batches are decoded against stale dictionaries.
+// History: batch 0 small, batch 1 with a large SPANS record (refused at
+// 8 KiB in its first payload), batches 2-3 small with trace_state (SPANS gets a
+// new schema id).
+func TestKnownC14(t *testing.T) {
+	mk := func(first, spans, nameLen int, ts bool) ptrace.Traces {
+		td := ptrace.NewTraces()
+		rs := td.ResourceSpans().AppendEmpty()
+		rs.SetSchemaUrl("schema")
+		ss := rs.ScopeSpans().AppendEmpty().Spans()
+		for i := 0; i < spans; i++ {
+			sp := ss.AppendEmpty()
+			sp.SetName(strings.Repeat("n", nameLen) + fmt.Sprintf("span_%d", first+i))
+			if ts {
+				sp.TraceState().FromRaw("k=v")
+			}
+			sp.Attributes().PutStr(fmt.Sprintf("key_%d", first+i), fmt.Sprintf("value_%d", first+i))
+		}
+		return td
+	}
+	c := &StreamCase{Batches: []Batch{TracesBatch(mk(0, 4, 0, false)), TracesBatch(mk(4, 60, 400, false)), TracesBatch(mk(64, 4, 0, true)), TracesBatch(mk(68, 4, 0, true))}}
+	batches, err := encodeAll(c)
+	if err != nil || len(batches) != 4 {
+		fmt.Printf("KNOWN-NOVERDICT key=continue-after-refusal producer: %v (%d batches)\n", err, len(batches))
+		return
+	}
+	for _, limit := range []uint64{8 << 10, 12 << 10, 16 << 10, 24 << 10} {
+		cons := arrow_record.NewConsumer(arrow_record.WithMemoryLimit(limit))
+		refused := false
+		for i, b := range batches {
+			d := Decode(cons, b.signal, proto.Clone(b.bar).(*colarspb.BatchArrowRecords))
+			if d.Panic != nil && refused {
+				fmt.Printf("KNOWN-REPRODUCED key=continue-after-refusal limit %d: batch %d panics after an earlier batch was refused: %s\n", limit, i, kitTrunc(d.Panic.Value))
+				_ = catch(func() { _ = cons.Close() })
+				return
+			}
+			if d.Err != nil {
+				refused = true
+			}
+		}
+		_ = catch(func() { _ = cons.Close() })
+	}
+	fmt.Printf("KNOWN-GONE key=continue-after-refusal (no panic after a refusal under 8-24 KiB)\n")
 }
